@@ -1,12 +1,12 @@
 /-
   Lang — a deep embedding of the core of the Reduino DSL (source side) and of the emitted C++ (target side).
-  Source fragment: int/bool values; + - *, bitwise & | ^, `abs`, two-argument `min`/`max` (W1), unary minus, comparisons,
-  and/or/not, conditional expressions; assignment, augmented assignment (all binary operators), if/elif/else, while, for-range, break,
+  Source fragment: int/bool values; + - *, bitwise & | ^, floor division `//` and modulo `%`, `abs`, two-argument `min`/`max`
+  (W1), unary minus, comparisons, and/or/not, conditional expressions; assignment, augmented assignment (all binary operators), if/elif/else, while, for-range, break,
   serial write, sleep; a run-once prologue and an optional `while True:` main loop.
 -/
 namespace Reduino.Lang
 
-inductive BinOp where | add | sub | mul | band | bor | bxor
+inductive BinOp where | add | sub | mul | band | bor | bxor | fdiv | fmod
   deriving DecidableEq, Repr
 inductive CmpOp where | lt | le | gt | ge | eq | ne
   deriving DecidableEq, Repr
@@ -103,7 +103,8 @@ def bitXor : Int → Int → Int
   | .negSucc m, .ofNat n => .negSucc (m ^^^ n)
   | .negSucc m, .negSucc n => .ofNat (m ^^^ n)
 
-/-- the operator on integers -/
+/-- Python's operator on integers (`//` rounds toward minus infinity, `%` takes the sign of the divisor); the zero divisor is
+    excluded by `BinOp.pyEval` -/
 def BinOp.eval : BinOp → Int → Int → Int
   | .add, a, b => a + b
   | .sub, a, b => a - b
@@ -111,6 +112,20 @@ def BinOp.eval : BinOp → Int → Int → Int
   | .band, a, b => bitAnd a b
   | .bor, a, b => bitOr a b
   | .bxor, a, b => bitXor a b
+  | .fdiv, a, b => a.fdiv b
+  | .fmod, a, b => a.fmod b
+
+/-- what the emitted C operator (`_BIN`: `//` becomes `/`, `%` stays `%`) computes on `int`s: `/` truncates toward zero, `%` takes
+    the sign of the dividend; every other operator is Python's -/
+def BinOp.ceval : BinOp → Int → Int → Int
+  | .fdiv, a, b => a.tdiv b
+  | .fmod, a, b => a.tmod b
+  | op, a, b => op.eval a b
+
+def BinOp.isDiv : BinOp → Bool
+  | .fdiv => true
+  | .fmod => true
+  | _ => false
 
 /-- Python's value of `x op y`: bools are ints in arithmetic, but `& | ^` of two bools is a bool -/
 def BinOp.pyVal : BinOp → Val → Val → Val
@@ -122,6 +137,7 @@ def BinOp.pyVal : BinOp → Val → Val → Val
 /-- the Python `ast` operator class each constructor stands for (key of the transpiler's `_BIN` table, see GenOb/Ops) -/
 def BinOp.astName : BinOp → String
   | .add => "Add" | .sub => "Sub" | .mul => "Mult" | .band => "BitAnd" | .bor => "BitOr" | .bxor => "BitXor"
+  | .fdiv => "FloorDiv" | .fmod => "Mod"
 
 /-- Python's `min(x, y)` / `max(x, y)`: the FIRST extremal operand, returned as it is (a bool stays a bool) -/
 def MinMax.pick : MinMax → Val → Val → Val
@@ -148,6 +164,15 @@ inductive Err where
   | nameError | typeError | fuel | breakOutside | negativeDelay
   /-- a C `int` computation left the 32-bit range (undefined behaviour) -/
   | overflow
+  /-- division or modulo by zero: Python's ZeroDivisionError; undefined behaviour in C -/
+  | zeroDiv
+  /-- strict reading of the C semantics only: a `/` or `%` with a negative dividend or divisor, where C's truncating operators
+      and Python's flooring ones may differ (K01b, K01c) -/
+  | signedDiv
   deriving DecidableEq, Repr
+
+/-- Python's `x op y`: ZeroDivisionError on a zero divisor of `//` and `%` -/
+def BinOp.pyEval (op : BinOp) (x y : Val) : Except Err Val :=
+  if op.isDiv ∧ y.toInt = 0 then .error .zeroDiv else .ok (op.pyVal x y)
 
 end Reduino.Lang
